@@ -12,10 +12,10 @@ import (
 // PlusKinds are the features of the wider class W+ (C09 only).
 var PlusKinds = []string{"ptrIntoOperation", "ptrNestedInline", "ptrMissingPosition", "ptrInPtrTarget", "ptrCycle", "auxBackRef", "collisionWithRefs",
 	"danglingLocalDef", "danglingRemoteFile", "danglingRemoteFragment", "recursiveContainers", "wholeDocSchema", "paramRefToNonParam", "responseRefToNonResponse",
-	"ptrToNonSchema", "refWithSiblings", "absoluteSelfRef", "itemsRef", "deepNesting", "pathItemRefDangling", "selfRefDefinition", "ptrToSelf", "sharedRefToRemote", "sharedRefToMissing", "wholeDocPointerNested", "httpRemote"}
+	"ptrToNonSchema", "refWithSiblings", "absoluteSelfRef", "itemsRef", "deepNesting", "pathItemRefDangling", "selfRefDefinition", "ptrToSelf", "sharedRefToRemote", "sharedRefToMissing", "wholeDocPointerNested", "httpRemote", "ptrTailIntoCycle"}
 
 // MustErrorKinds: planted at a position reachable from an operation, Flatten must return an error (ContinueOnError off).
-var MustErrorKinds = map[string]bool{"ptrMissingPosition": true, "ptrCycle": true, "danglingRemoteFile": true, "danglingRemoteFragment": true, "sharedRefToMissing": true}
+var MustErrorKinds = map[string]bool{"ptrMissingPosition": true, "ptrCycle": true, "ptrTailIntoCycle": true, "danglingRemoteFile": true, "danglingRemoteFragment": true, "sharedRefToMissing": true}
 
 // ResolvablePlusKinds never make a bundle unresolvable: they may be added to bundles used for load-fault enumeration.
 var ResolvablePlusKinds = []string{"sharedRefToRemote", "wholeDocSchema", "auxBackRef", "ptrIntoOperation", "ptrNestedInline", "recursiveContainers", "absoluteSelfRef", "httpRemote"}
@@ -71,6 +71,22 @@ func (b *Bundle) Plus(kind string) {
 			b.useRef("#/definitions/Cy"+k+"/properties/x", holder)
 		} else {
 			b.useRef("#/definitions/Cy"+k, "schema")
+		}
+	case "ptrTailIntoCycle":
+		// a chain of pointers with a tail that leads into a cycle it is not part of: p -> (q ->) x -> y -> x
+		b.Def("Loop"+k, jx.Obj{"type": "object", "description": b.lbl("lp"), "properties": jx.Obj{
+			"x": jx.Obj{"$ref": "#/definitions/Loop" + k + "/properties/y"},
+			"y": jx.Obj{"$ref": "#/definitions/Loop" + k + "/properties/x"}}})
+		tail := jx.Obj{"p": jx.Obj{"$ref": "#/definitions/Loop" + k + "/properties/x"}}
+		entry := "#/definitions/Head" + k + "/properties/p"
+		if b.Variant%2 == 1 || (b.Variant < 0 && Chance(b.rng, 50)) {
+			tail["q"] = jx.Obj{"$ref": "#/definitions/Head" + k + "/properties/p"}
+			entry = "#/definitions/Head" + k + "/properties/q"
+		}
+		b.Def("Head"+k, jx.Obj{"type": "object", "description": b.lbl("hd"), "properties": tail})
+		b.useRef(entry, holder)
+		if b.Variant >= 2 {
+			b.useRef(entry, "schema")
 		}
 	case "auxBackRef":
 		b.Def("Back"+k, b.Obj())
